@@ -57,7 +57,10 @@ CLAIMED = {
             "simplifier) over all DFA(2,{a,b}), DFA(3,{a,b}), DFA(3,{a}) x every elimination order: the extracted "
             "expression is exactly equivalent to the DFA.  Real regexp_to_nfa / dfa_to_regexp results (small trees "
             "exhaustively, random trees, DFAs under renamings and hash seeds = elimination orders, 3-symbol "
-            "alphabets) are judged exactly by TLC (Glushkov + subset-product).",
+            "alphabets, multi-character state names) are judged exactly by TLC (Glushkov + subset-product).  Thompson.tla "
+            "models regexp_to_nfa as the code builds it (generator names, shared alphabet): checked on all trees "
+            "with <= 2 (3) operators and replayed structurally into the real function; observed elimination traces "
+            "are replayed through GnfaRip's step operator down to the identical expression tree.",
             "trusted: TLC, abstraction.py, Regex.tla/FA.tla; DFA state names other than start/accept",
             "TLA+ model with nondeterministic elimination order (TLC exhaustive) + TLC trace validation"),
     "C14": ("5/C14",
@@ -65,9 +68,13 @@ CLAIMED = {
             "exactly for all word lengths) are themselves TLC-checked against word-level definitions (Lemmas.tla); "
             "every real construction result (unary on DFA(3,{a,b}), products on all pairs of DFA(2,{a,b}), random and "
             "partial DFAs) and every finite-language helper result (all 128 languages over words <= 2, sampled pairs) "
-            "is judged by TLC.  Definitions only - no behavioural model (DESIGN 5/C14).",
+            "is judged by TLC, incl. DFAs with 10-13 numbered states and operands with commas in their names (recorded "
+            "finding).  DfaOps.tla models the nine constructions as the code builds them (names included): TLC checks "
+            "them against the reference operations on every DFA(2)/DFA(3) / pair / partial DFA and every (input, "
+            "operation, result) is replayed into the real function and compared structurally.",
             "trusted: TLC, abstraction.py, FA.tla as cross-checked by Lemmas.tla",
-            "TLC-checked reference semantics (lemmas) + TLC trace validation of recorded calls"),
+            "TLA+ construction model (TLC exhaustive, behaviours replayed into the code) + TLC-checked reference semantics + "
+            "TLC trace validation of recorded calls"),
     "C20": ("5/C20",
             "TLC checks Iso (dfa_isomorphic1 as a worklist with arbitrary pick order) over all pairs of DFA(2,{a,b}), "
             "DFA(2,{a,b}) x DFA(3,{a,b}), DFA(3,{a})^2: answer = existence of a bijection (brute force), termination; "
@@ -102,8 +109,11 @@ CLAIMED = {
             "over all sets of <= 4 (5) unit/terminal/binary rules on 3 variables: no unit rule left, rule set = unit "
             "closure whatever the order, language of every variable preserved (words <= 3).  Every phase of the real "
             "pipeline, cfg_to_chomsky and cfg_apply_chomsky are judged by TLC per call: valid grammar, the phase's "
-            "postcondition, language equal on all words <= 3 (4) by the fix-point on both sides, number of introduced "
-            "variables, CNF at the end, input unchanged; grammars with 23-27 variables included; (T) observed visiting "
+            "postcondition, language equal on all words <= 3 (4) by the fix-point on both sides, no input variable gains a "
+            "rule (introduced variables are new), CNF at the end, input unchanged; grammars with 23-27 variables and "
+            "multi-character variable names included; the deterministic phases are compared with ChomskySteps.tla "
+            "down to the rule list, and ChomskyPipe.tla checks the composed model pipeline on all 28.9k rule lists "
+            "with <= 2 rules; (T) observed visiting "
             "orders are replayed through the model's step function down to the exact rule list; (G) every "
             "visiting order TLC enumerates (5.9k) is forced onto the real cfg_eliminate_unit_rules.",
             "trusted: TLC, abstraction.py, CFG.tla; CFG equivalence undecidable - bounded word length",
@@ -125,10 +135,15 @@ CLAIMED = {
             "complete when every exact closure stays below the limit, the oracle's two formulations agree, "
             "termination.  Real pda_accepts_word verdicts for all words <= n under limits 1..50 (binary-tree PDAs: "
             "500..5000), before and after an in-place change of the automaton, are judged by TLC against the exact "
-            "saturation semantics (no stack bound).",
-            "trusted: TLC, abstraction.py, PDA.tla (saturation vs configuration exploration cross-checked in the model "
+            "saturation semantics (no stack bound), incl. epsilon-graph PDAs under the boundary limit (= size of the "
+            "largest closure needed).  Observed pops of pda_epsilon_closure are validated against the model's Pop "
+            "operators, every pop order x limit of the small universe (23k schedules) is forced onto the real loop, "
+            "and TLAPS proves (PdaClosureProof.tla, 99 obligations) soundness of every truncated result and "
+            "completeness below the limit for any configuration set, limit and pop order.",
+            "trusted: TLC, TLAPS, abstraction.py, PDA.tla (saturation vs configuration exploration cross-checked in the model "
             "run); words <= 3 (4)",
-            "TLA+ model with nondeterministic pop order (TLC exhaustive) + TLC trace validation"),
+            "TLA+ model with nondeterministic pop order (TLC exhaustive, schedules forced onto the code) + TLAPS proof of the "
+            "loop + TLC trace validation"),
     "C10": ("5/C10",
             "Every result of the four public transformations (one accepting state, push/pop, accept on empty stack, "
             "PDA->CFG) on the sampled 2-state universe, hand-written PDAs (acceptance with non-empty stack, markers "
@@ -137,7 +152,8 @@ CLAIMED = {
             "push/pop only, accepting configurations have an empty stack, input unchanged.  TLC also checks "
             "PdaNormal.tla (the three normal forms and the triple construction as phases; all PDAs with <= 2 (3) moves "
             "on 2 states, names clashing with the fresh names): language preserved after every phase; its pinned "
-            "variant (no drain state) reproduces the defect that was fixed.",
+            "variant (no drain state) reproduces the defect that was fixed.  State names like the generated ones (M1, "
+            "q_accept1) and with apostrophes (variable-name clash in pda_to_cfg, fixed) are part of the universe.",
             "trusted: TLC, abstraction.py, PDA.tla, CFG.tla; bounded word length (the statement asks for a bound)",
             "TLA+ phase model (TLC exhaustive) + TLC trace validation of recorded calls"),
     "C11": ("5/C11",
